@@ -33,6 +33,7 @@ def showExpand : List Word → String
     `fmt <s>`            → hex of expand.Format(nil, s, nil)
     `lex <lang> <q>`     → `words <w>*` | `err` | `outside`           Parser.Words
     `unq <lang> <q>`     → `ok <hex>*` | `err` | `outside`            expand.Literal of each word
+    `cmd <lang> <q>`     → `simple <w>` | `assign` | `notsimple` | `outside`   Parser.Parse of one word
     `specrt <lang> <s>`  → `fail` | `ok`   the property: Quote must fail exactly on the strings the
                            variant cannot represent, otherwise its result must parse as one word of
                            literal/quoted parts that expands to `s`. -/
@@ -66,6 +67,16 @@ def handle (args : List String) : String :=
       match lexWords l q with
       | .ok ws => showExpand ws
       | .err => "err"
+      | .outside => "outside"
+    | _, _ => "bad-op"
+  | ["cmd", l, q] =>
+    match l.toNat?, ofHex q with
+    | some l, some q =>
+      match cmdPos l q with
+      | .simple w => "simple " ++ showWord w
+      | .assign => "assign"
+      | .special => "notsimple"
+      | .err => "notsimple"
       | .outside => "outside"
     | _, _ => "bad-op"
   | ["specrt", l, s] =>
